@@ -1,6 +1,7 @@
 package codec
 
 import (
+	"google.golang.org/protobuf/encoding/protowire"
 	"fmt"
 	"go/ast"
 	"go/token"
@@ -129,6 +130,44 @@ func (w *sizeWalker) poly(x ast.Expr) (Poly, error) {
 		}
 		if p, is, err := helperSum(info, t, w.e.term); is {
 			return p, err
+		}
+		switch q {
+		case "google.golang.org/protobuf/encoding/protowire.SizeBytes":
+			// SizeBytes(n) = SizeVarint(uint64(n)) + n
+			if len(t.Args) == 1 {
+				p, err := w.poly(t.Args[0])
+				if err != nil {
+					return nil, err
+				}
+				return p.add(pAtom("Sov(nat(" + p.String() + "))")), nil
+			}
+		case "google.golang.org/protobuf/encoding/protowire.SizeTag":
+			if len(t.Args) == 1 {
+				if k, ok := constInt(info, t.Args[0]); ok && k > 0 && k < 1<<29 {
+					return pConst(int64(protowire.SizeTag(protowire.Number(k)))), nil
+				}
+			}
+		case "google.golang.org/protobuf/encoding/protowire.SizeVarint":
+			if len(t.Args) == 1 {
+				// same quantity as runtime.Sov: evaluate as such
+				arg := ast.Unparen(t.Args[0])
+				if conv, ok := arg.(*ast.CallExpr); ok && len(conv.Args) == 1 {
+					if tv, ok := info.Types[conv.Fun]; ok && tv.IsType() && basicKind(tv.Type) == types.Uint64 {
+						if st := info.TypeOf(conv.Args[0]); st != nil && basicKind(st) == types.Int {
+							p, err := w.poly(conv.Args[0])
+							if err != nil {
+								return nil, err
+							}
+							return pAtom("Sov(nat(" + p.String() + "))"), nil
+						}
+					}
+				}
+				a, err := w.e.term(t.Args[0])
+				if err != nil {
+					return nil, err
+				}
+				return pAtom("Sov(" + a + ")"), nil
+			}
 		}
 		return nil, und("call %s in size arithmetic", q)
 	}
